@@ -1176,7 +1176,8 @@ func genSChange(t *rapid.T, c *LoopCase, nkeys int) SChange {
 	ch := SChange{DBI: rapid.SampledFrom([]int{0, 0, 0, 1}).Draw(t, "dbi"), Key: rapid.IntRange(0, nkeys-1).Draw(t, "key"),
 		Op: rapid.SampledFrom([]string{"put", "put", "del"}).Draw(t, "op")}
 	if ch.Op == "put" {
-		ch.Val = rapid.SampledFrom([]model.Bytes{[]byte("v1"), []byte("v2"), []byte("w"), {}}).Draw(t, "val")
+		// ("1" is a suffix of "v1", "v1" of "cfg-v1": an overwrite by a value that is a tail of the stored bytes)
+		ch.Val = rapid.SampledFrom([]model.Bytes{[]byte("v1"), []byte("v2"), []byte("w"), {}, []byte("1"), []byte("cfg-v1")}).Draw(t, "val")
 		if len(ch.Val) == 0 && !c.Native {
 			c.ExcludedEmpty++
 			ch.Val = model.Bytes("e")
@@ -1355,6 +1356,9 @@ func (e enumLoop) toCase() LoopCase {
 		ch = []SChange{{DBI: 0, Key: 3, Op: "put", Val: model.Bytes("new"), TS: 30}}
 	case "overwrite":
 		ch = []SChange{{DBI: 0, Key: 0, Op: "put", Val: model.Bytes("v1"), TS: 30}}
+	case "suffix":
+		// the new value is a tail of the value it replaces ("v0" -> "0")
+		ch = []SChange{{DBI: 0, Key: 0, Op: "put", Val: model.Bytes("0"), TS: 30}}
 	case "delete":
 		ch = []SChange{{DBI: 0, Key: 1, Op: "del", TS: 30}}
 	case "newdbi":
@@ -1436,6 +1440,14 @@ func TestC03Enum(t *testing.T) {
 						// the same commit on a receive-only instance (captures, merges, never uploads)
 						if !yield(enumLoop{Native: native, Point: p, Kind: k, PeerNoop: false, LocalFirst: true, ReceiveOnly: true}) {
 							return
+						}
+						// an overwrite by a value that is a suffix of the stored one
+						if k == "overwrite" {
+							for _, lf := range []bool{false, true} {
+								if !yield(enumLoop{Native: native, Point: p, Kind: "suffix", PeerNoop: false, LocalFirst: lf}) {
+									return
+								}
+							}
 						}
 						// the later peer snapshot creates a DBI that sorts before the one holding the application's newer version
 						if k == "overwrite" {
